@@ -41,7 +41,9 @@ Next ==
   /\ l <= Len(Rec)
   /\ l' = l + 1
   /\ LET e == Rec[l] IN
-     IF e.ev = "reset" THEN
+     IF e.ev = "reset_after_crash" THEN      \* the process died in this run (reported by the orchestrator)
+        /\ failed' = TRUE /\ UNCHANGED <<m, s, viol, drift>>
+     ELSE IF e.ev = "reset" THEN
         /\ m' = e.init /\ s' = [c |-> e.init, k |-> 0]
         /\ failed' = FALSE /\ UNCHANGED <<viol, drift>>
      ELSE IF failed THEN UNCHANGED <<m, s, failed, viol, drift>>
